@@ -115,7 +115,7 @@ def plan(tier, seed):
     chunks, per = 32, 160
   else:
     chunks, per = 64, 1800
-  specs = [{'mode': 'selftest'}, {'mode': 'directed'}]
+  specs = [{'mode': 'selftest'}, {'mode': 'directed', 'rseed': seed}]
   for i in range(chunks):
     specs.append({'mode': 'random', 'index': i, 'count': per, 'rseed': seed})
   return specs
@@ -1019,6 +1019,63 @@ def _directed_ext(case, agg):
   return out
 
 
+class _FlatCollect:
+
+  def create_state(self):
+    return []
+
+  def update_state(self, state, xs):
+    import numpy as np
+    return state + [int(v) for v in np.asarray(xs).reshape(-1)]
+
+  def merge_states(self, states):
+    return [v for st in states for v in st]
+
+  def get_result(self, state):
+    return sorted(state)
+
+
+def _sign_masks(m):
+  import numpy as np
+  a = np.asarray(m)
+  yield 'pos', a > 0
+  yield 'neg', a < 0
+
+
+def check_ndmask_cases(ctx, rseed):
+  """Intra-example masks given as n-D bool ndarrays over a (batch, dim) input held as
+  an ndarray or as a list of lists: every slice aggregates exactly the masked cells."""
+  import numpy as np
+  from ml_metrics._src.chainables import transform
+  rng = random.Random(rseed * 31 + 7)
+  for i in range(24):
+    n, d = rng.randint(1, 4), rng.randint(1, 4)
+    batches = [[[rng.randint(-5, 5) for _ in range(d)] for _ in range(rng.randint(1, n))]
+               for _ in range(rng.randint(1, 3))]
+    as_list = i % 2 == 0
+    case = {'ndmask': 1, 'rseed': rseed}
+    ctx.count('ndmask_checks')
+    ctx.case(('ndmask', rseed, i), True)
+    stream = [{'m': b if as_list else np.array(b)} for b in batches]
+    cells = [v for b in batches for row in b for v in row]
+    want = {'pos': sorted(v for v in cells if v > 0), 'neg': sorted(v for v in cells if v < 0)}
+    try:
+      res = transform.TreeTransform.new().aggregate(
+          fn=_FlatCollect(), input_keys='m', output_keys='sel').add_slice(
+              'm', 'sign', slice_mask_fn=_sign_masks).make()(input_iterator=iter(stream))
+      got = {k.slice.values[0]: v for k, v in dict(res).items() if not isinstance(k, str)}
+    except Exception as e:  # pylint: disable=broad-exception-caught
+      ctx.violation('raised', case, {'error': f'{type(e).__name__}: {e}'[:300],
+                                     'input': 'list of lists' if as_list else 'ndarray',
+                                     'batches': batches},
+                    mechanism='nd-mask-on-' + ('list-input' if as_list else 'ndarray-input') + ':raised')
+      continue
+    got = {k: v for k, v in got.items() if v}
+    if got != {k: v for k, v in want.items() if v}:
+      ctx.violation('value_differs', case, {'got': got, 'want': want, 'batches': batches},
+                    mechanism='nd-mask-on-' + ('list-input' if as_list else 'ndarray-input') + ':differs')
+
+
 def run_chunk(ctx, spec):
   # The literal chunks come first in the report: one witness per mechanism there, so
   # that the first replay files cover different mechanisms.
@@ -1030,6 +1087,7 @@ def run_chunk(ctx, spec):
     for case in _directed():
       ctx.count('directed_cases')
       check_case(ctx, case)
+    check_ndmask_cases(ctx, spec.get('rseed', 0))
     return
   rng = random.Random(spec['rseed'] * 1000003 + spec['index'] * 7919 + 17)
   for _ in range(spec['count']):
@@ -1038,5 +1096,8 @@ def run_chunk(ctx, spec):
 
 
 def run_case(ctx, case):
+  if 'ndmask' in case:
+    check_ndmask_cases(ctx, case['rseed'])
+    return
   case = {k: v for k, v in case.items() if not k.startswith('_')}
   check_case(ctx, case)
